@@ -18,6 +18,9 @@ def handle (j : Json) : Json :=
   -- (reading it with a natural-number default would turn -1 into 0)
   let nonNeg := (J.arrD j "allowed").toList.filter fun a => match J.int a "m" with | .ok z => decide (0 ≤ z) | .error _ => false
   let cfg : Cfg := { allowed := nonNeg.map valOf, maxSmall := J.natD j "maxSmall" 10 }
+  let fj := (j.getObjVal? "file").toOption.getD (Json.mkObj [])
+  let facts : FileFacts := { name := (J.strD fj "name" "mod.py").toList, upperConsts := J.natD fj "upperConsts" 0,
+                             dictIntKeys := (J.arrD fj "dictIntKeys").toList.map fun k => (k.getNat?).toOption.getD 0 }
   let outs := (J.arrD j "sites").toList.map fun sj =>
     let s : Site := { pos := posOf (J.strD sj "pos" "plain"), value := valOf ((sj.getObjVal? "value").toOption.getD (Json.mkObj [])),
                       testFile := J.boolD sj "testFile" false, inTest := J.boolD sj "inTest" false,
@@ -28,10 +31,10 @@ def handle (j : Json) : Json :=
       | "rust" => rsParse (J.boolD sj "floatNode" false) text
       | _ => tsParse text
     let flag := match lang with
-      | "python" => pyFlag cfg s
+      | "python" => pyFlagIn cfg facts s
       | "rust" => rsFlag cfg parsed s
       | _ => tsFlag cfg parsed s
-    let spec := specFlag lang cfg s
+    let spec := specFlagIn lang cfg facts s
     let explain : List String :=
       if flag == spec then [] else
       match lang, parsed with
@@ -42,6 +45,6 @@ def handle (j : Json) : Json :=
       | _, some _ => ["unexplained"]
     Json.mkObj [("parsed", match parsed with | some v => valJson v | none => Json.null), ("flag", flag), ("spec", spec),
                 ("explain", J.ofStrs explain)]
-  Json.mkObj [("sites", Json.arr outs.toArray)]
+  Json.mkObj [("sites", Json.arr outs.toArray), ("definitionFile", isDefinitionFile facts)]
 
 end ThaiLintModel.C02
